@@ -9,7 +9,7 @@ LEVEL_TEXT = (
     'every function with a `kind` parameter (14, incl. the Bus and Batch forwards) defaults it to the constant and passes it on '
     'unmodified; (c) at each of the 5 np.lexsort sites the key list iterates from the last depth/column down to 0, so depth 0 is the '
     'primary key; (d) each sort result selects labels and values with the same permutation variable and passes the other axis and '
-    'the name through; (e) `ascending` is consumed only by reversing the permutation after the stable ascending sort. '
+    'the name through; (f) every definition of the permutation is a sort primitive over values data-dependent on the key container, or its own reversal; (e) `ascending` is consumed only by reversing the permutation after the stable ascending sort. '
     'Not decided: NumPy\'s sort itself, key-function results, NaN ordering.')
 
 CLAIM = dict(
@@ -25,3 +25,4 @@ def run(ctx: Ctx) -> None:
     sortrules.lexsort_order(ctx)
     sortrules.descending_is_reversal(ctx)
     sortrules.whole_rows(ctx)
+    sortrules.order_from_keys(ctx)
